@@ -28,7 +28,7 @@ func TestMain(m *testing.M) {
 		os.Exit(0)
 	}
 	harness.Describe(
-		"(A) every (sample file, format) pair named by a *.fqtest command decoded as is with force off and on; rapid-drawn mutants (format bucket drawn uniformly, then file, then truncation / byte set / bit flip / length-field saturation / block dup or delete, force on or off) decoded in a crash-isolated worker; (B) rapid-generated decoder programs over the public decode API (fields, struct/array, seeks with and without restore, FramedFn/LimitedFn/RangeFn, nested formats by position/length/range, nested buffers, synthetic values, Errorf/Fatalf/read past end, duplicate names, one- and two-format groups, force) run by fq and by a reference interpreter that predicts the tree. Non-trivial: tree has >= 2 levels and (a field that is not byte aligned, or a nested buffer/format, or a seek (B only), or a failed/forced decode); distinct = hash of (file, format, mutation, force) or of the program + input.",
+		"(A) every (sample file, format) pair named by a *.fqtest command decoded as is with force off and on; rapid-drawn mutants (format bucket drawn uniformly, then file, then truncation / byte set / bit flip / length-field saturation / block dup or delete, force on or off) decoded in a crash-isolated worker; (B) rapid-generated decoder programs over the public decode API (fields, struct/array, seeks with and without restore, FramedFn/LimitedFn/RangeFn, nested formats by position/length/range, nested buffers, synthetic values, Errorf/Fatalf/read past end, duplicate names, one- and two-format groups, force) run by fq and by a reference interpreter that predicts the tree. Non-trivial: tree has >= 2 levels and (a field that is not byte aligned, or a nested buffer/format, or a seek (B only), or a failed/forced decode); distinct = hash of (file, format, mutation, force) or of the program + input. (C) corpus files decoded from a sub-range of a larger buffer (decode.Options.Range; start and length in bits, raw formats included): the same invariants, with \"inside its buffer\" read as \"inside the decoded range\" for values of the top buffer.",
 		"struct child Index values are not asserted (the statement speaks about array numbering only)",
 		"the Start of a nested buffer root inside its parent is not asserted by the generic invariants (it is a position in another buffer); for generated programs it must be the position at which the decoder attached it",
 		"a Go panic or process death of a decoder on a mutated input is C06's subject: the case is counted as skipped, not as a C03 verdict; a decode cut short by the harness's read budget is skipped too",
